@@ -760,7 +760,9 @@ class SpecMixin:
 
     def sf_attr(self, st, node, env, cmod):
         a, n = self._args(st, node, env, cmod)
-        return SV(self.hload(st, r_of(self.to_term(st, a)), self.spec_str(st, n)))
+        val = self.hload(st, r_of(self.to_term(st, a)), self.spec_str(st, n))
+        st.assume(self.older(st, val))
+        return SV(val)
 
     def sf_truthy(self, st, node, env, cmod):
         (a,) = self._args(st, node, env, cmod)
